@@ -7,11 +7,12 @@ precedes it in its stream has been answered (Sequential); sibling streams run co
 connection is free (NoIdleWaiting); never more than max-connections in flight (ConnLimit); one dependent timing per executed
 item with its own type/start/end (TimingsOwn; L2: in document order); unsupported/malformed items are never executed and a
 raising sub-request makes the composite raise that exception at once (RejectedNeverRuns, NoSuccessOnFailure, FailFast).
-Pinned code behaviour (model switches): CancelTail=FALSE: streams awaited by the gather at the END of a list are not cancelled
-and keep sending after the composite raised (QuiescentAfterRaise fails on /repo); ValidateUpFront=FALSE: rejection is lazy.
+Model switches: CancelTail / AwaitCancelled = TRUE describe /repo since the fix of run_stream (final gather inside the try,
+cancelled streams awaited before re-raising); FALSE/FALSE is the pre-fix code, kept as self-test: streams behind the gather at
+the END of a list keep sending after the composite raised (QuiescentAfterRaise violated).  ValidateUpFront=FALSE: rejection is lazy.
 
 Leg M   : TLC on Composite.{quick,thorough}.cfg (all trees up to 6/7 nodes, <= 2 levels of streams, <= 3 streams, <= 3 items
-          per list, max-connections none/1/2/3, every completion order incl. ties, failures), the repaired variant, 2 self-tests.
+          per list, max-connections none/1/2/3, every completion order incl. ties, failures), the ValidateUpFront variant, the pre-fix variant (thorough), 2 self-tests.
 Leg S2C : TLC -simulate behaviours (trees up to 8 nodes, 3 levels) -> tree + max-connections + latency / failure per
           sub-request -> executed by the REAL runner.Composite with the real raw-request / search / sleep runners on the
           virtual-time asyncio loop against a scripted fake client that logs every wire request, task and cancellation.
@@ -34,8 +35,8 @@ TPS = 64
 UNSUP_TYPES = ["bulk", "force-merge", "index-stats", "node-stats", "scroll-search", "sql", "esql", "cluster-health", "refresh", "composite"]
 OP_TYPES = ["raw-request", "search", "sleep"]
 _SEARCH_BODY = b'{"took":1,"timed_out":false,"hits":{"total":{"value":1,"relation":"eq"},"hits":[]}}'
-# clauses the code as it is violates by design of the pinned switches (reported, see module docstring)
-PINNED = {"QuiescentAfterRaise"}
+# clauses the code is known to violate by design of pinned model switches (none since the fix of run_stream)
+PINNED = set()
 
 
 class Boom(Exception):
@@ -461,17 +462,18 @@ def run_cases(cases, out, label, stats):
                 replay,
                 signature=_signature(clauses, case, item),
                 detail="run %s, first failing event %d of %d%s"
-                % (tid, fails[0][0], len(item["events"]), " (pinned behaviour CancelTail=FALSE of the model)" if set(clauses) <= PINNED else ""),
+                % (tid, fails[0][0], len(item["events"]), " (pinned behaviour of the model)" if PINNED and set(clauses) <= PINNED else ""),
             )
         )
     if verdicts.l2:
-        # does the code behave like the repaired variant of the model (final gather inside the try block)?
+        # does the code behave like the pre-fix variant of the model (final gather outside the try block, no await of cancelled streams)?
         drifted = [index[tid][1] for tid in sorted(verdicts.l2)]
-        cfg_text = open(os.path.join(tlc.SPECS, "Composite", "TraceComposite.cfg"), encoding="utf-8").read().replace("CancelTail = FALSE", "CancelTail = TRUE")
+        with open(os.path.join(tlc.SPECS, "Composite", "TraceComposite.cfg"), encoding="utf-8") as f:
+            cfg_text = f.read().replace("CancelTail = TRUE", "CancelTail = FALSE").replace("AwaitCancelled = TRUE", "AwaitCancelled = FALSE")
         v2 = tracecheck.validate("Composite", "TraceComposite", "TraceComposite.cfg", drifted, name="xcomptrace2", cfg_text=cfg_text)
-        stats["drift_accepted_by_repaired_variant"] = stats.get("drift_accepted_by_repaired_variant", 0) + len(drifted) - len(v2.l2)
+        stats["drift_accepted_by_prefix_variant"] = stats.get("drift_accepted_by_prefix_variant", 0) + len(drifted) - len(v2.l2)
         if not v2.l2:
-            out.drift.append("%s: %d runs are not behaviours of Composite.tla with CancelTail=FALSE but all of them are with CancelTail=TRUE (siblings behind a tail gather are cancelled: the repaired variant)" % (label, len(drifted)))
+            out.drift.append("%s: %d runs are not behaviours of Composite.tla with CancelTail=AwaitCancelled=TRUE but all of them are with FALSE/FALSE (the pre-fix run_stream: streams behind a tail gather are not cancelled / not awaited)" % (label, len(drifted)))
     for tid, lines in sorted(verdicts.l2.items()):
         case, item = index[tid]
         ln = lines[0]
@@ -495,7 +497,10 @@ def run(ctx, out):
     ]
     # ---- Leg M
     cfg = "Composite.quick.cfg" if ctx.quick else "Composite.thorough.cfg"
-    for c, to in [(cfg, 200 if ctx.quick else 1500), ("Composite.repaired.cfg", 300)]:
+    todo = [(cfg, 200 if ctx.quick else 1500), ("Composite.upfront.cfg", 300)]
+    if not ctx.quick:
+        todo.append(("Composite.pinned.cfg", 300))
+    for c, to in todo:
         wd = tlc.prepare_workdir("Composite", "xcompmc")
         res = tlc.run_tlc(wd, "MC_Composite", c, timeout=to, allow_violation=True, workers=4 if ctx.quick else 8)
         out.add_tlc(res)
@@ -503,7 +508,7 @@ def run(ctx, out):
             raise tlc.MachineryError("model violates %s in %s: %s" % (res.invariant_violated or res.property_violated or "deadlock freedom", c, res.out[-1500:]))
         out.note("leg M %s: %d distinct states, depth %d, %.1fs" % (c, res.distinct, res.depth, res.wall_s))
     for c, inv, text in [
-        ("Composite.selftest.orphan.cfg", "QuiescentAfterRaise", "CancelTail=FALSE (code as it is): streams behind a tail gather keep running after the composite has raised"),
+        ("Composite.selftest.orphan.cfg", "QuiescentAfterRaise", "CancelTail=AwaitCancelled=FALSE (run_stream before the fix): streams behind a tail gather keep running after the composite has raised"),
         ("Composite.selftest.lazy.cfg", "NothingSentIfMalformed", "ValidateUpFront=FALSE (code as it is): requests are sent before an unsupported/malformed item is rejected"),
     ]:
         wd = tlc.prepare_workdir("Composite", "xcompself")
